@@ -229,6 +229,25 @@ var Tails = []struct {
 	{Program: "test 1 2\nfor i := range 3\n    x := i\n    x = x + 1\nend\n"},
 	{Program: "if true\n    print \"t\"\n    sleep 1\nend\n"},
 	{Program: "g (h)\nfunc h:num\n    sleep 0.1\n    return 1\nend\nfunc g n:num\n    m := n\n    m = m + 1\n    sleep 0.1\nend\n"},
+	// a blocking built-in in flight as (the last) argument of another call: when the stop arrives
+	// while it waits, the enclosing call must not happen
+	{Program: "print \"hello\" (read)\n"},
+	{Program: "print (upper (read)) (len (read))\n", Inputs: []string{"x"}},
+	{Program: "printf \"%v!\\n\" (read)\n"},
+	{Program: "test \"x\" (read)\nprint \"after\"\n"},
+	{Program: "exit (len (read))\n"},
+	{Program: "panic (read)\n"},
+	{Program: "sleep (len (read))\nprint \"slept\"\n"},
+	{Program: "move (str2num (read)) 5\ncircle 1\n"},
+	{Program: "a := [(read) \"k\"]\nprint a\n"},
+	{Program: "m := {k:(read)}\nprint m\n"},
+	{Program: "func show s:string t:string\n    print s t\nend\nshow \"got\" (read)\n"},
+	{Program: "if (read) == \"\"\n    print \"empty\"\nelse\n    print \"full\"\nend\n"},
+	{Program: "x := (read) + (read)\nprint x\ncls\n", Inputs: []string{"one"}},
+	{Program: "for c := range (read)\n    print c\nend\nprint \"done\"\n"},
+	{Program: "while (len (read)) > 0\n    print \"more\"\nend\nprint \"done\"\n", Inputs: []string{"a"}},
+	{Program: "on key k:string\n    print k (read)\nend\n", Events: []core.Event{{Name: "key", Str: []string{"a"}}}},
+	{Program: "on down x:num y:num\n    test (read) \"y\"\n    print x y\nend\n", Events: []core.Event{{Name: "down", Num: []string{"1", "2"}}}},
 	{Program: "cls\n"},
 	{Program: "print \"only\"\n"},
 	{Program: "x := 1\n"},
@@ -424,4 +443,125 @@ func MapLife(r *prng.R) (string, []core.Event) {
 		fmt.Fprintf(&b, "func row:[]num\n    return [1 2 3]\nend\nr1 := row\nr2 := row\nr1[0] = 9\nr2 = r2 + [4]\nr3 := row\nprint r1 r2 r3 (row)\nfor i := range 3\n    a := [i i i]\n    a[i] = 100\n    b := a[1:]\n    b[0] = -1\n    print a b\nend\n")
 	}
 	return b.String(), nil
+}
+
+// nvVar is one variable of the near-valid prelude.
+type nvVar struct{ name, ty, decl, use string }
+
+var nvVars = []nvVar{
+	{"n", "num", "n := 3", "print n+1 (n * 2) (n < 3)"},
+	{"s", "string", "s := \"abc\"", "print s+\"!\" (len s) (upper s)"},
+	{"b", "bool", "b := true", "print !b (b and true)"},
+	{"an", "[]num", "an := [1 2 3]", "print an (len an) an+[1]\nfor e1 := range an\n    print e1+1\nend"},
+	{"as", "[]string", "as := [\"p\" \"q\"]", "print as (join as \"-\")\nfor e2 := range as\n    print e2+\"!\"\nend"},
+	{"mn", "{}num", "mn := {a:1 b:2}", "print mn (has mn \"a\")\nfor k3 := range mn\n    print mn[k3]+1\nend"},
+	{"ms", "{}string", "ms := {a:\"x\"}", "for k4 := range ms\n    print ms[k4]+\"!\"\nend"},
+	{"x", "any", "x:any\nx = 1", "print x (typeof x)"},
+	{"ax", "[]any", "ax:[]any\nax = [1 \"s\"]", "print ax\nfor e5 := range ax\n    print (typeof e5) e5\nend"},
+	{"mx", "{}any", "mx:{}any\nmx = {a:1 b:\"s\"}", "print mx\nfor k6 := range mx\n    print (typeof mx[k6])\nend"},
+	{"aan", "[][]num", "aan := [[1] [2 3]]", "print aan\nfor r7 := range aan\n    for e7 := range r7\n        print e7+1\n    end\nend"},
+	{"ws", "[]string", "ws := [\"ab\" \"cd\"]", "print ws ws[0][0] (ws[0] + ws[1])"},
+	{"pm", "{}string", "pm := {name:\"ann\"}", "print pm pm.name[0] (pm.name + \"!\")"},
+}
+
+// NearValidCount is the number of distinct programs NearValid can build.
+const NearValidCount = 2000
+
+// NearValid builds program j of a systematic battery of programs that break ONE static rule
+// of the language and are otherwise ordinary: a variable assigned a value of another type, an
+// operator applied to operands it does not take, a call with an argument of the wrong type, a
+// wrong return type, an assignment target that cannot be assigned to (a character of a string
+// reached through an array or map, a slice, a call result), a non-num index, a non-bool
+// condition, a type assertion on a non-any, a procedure used as a value ... The parser
+// rejects them today; nothing of them runs. They are in the workload because a change that
+// makes the parser a little more generous turns exactly such a program into an accepted one,
+// and then it must still not go wrong: the statement is followed by code that uses every
+// variable the way its static type allows.
+func NearValid(j int) string {
+	vs := nvVars
+	pick := func(k int) nvVar { return vs[((k%len(vs))+len(vs))%len(vs)] }
+	fam := j % 14
+	k := j / 14
+	a, c := pick(k), pick(k/len(vs)+k+1)
+	var bad string
+	switch fam {
+	case 0: // assignment of another type
+		if a.ty == c.ty || a.ty == "any" {
+			c = pick(k + 2)
+		}
+		bad = fmt.Sprintf("%s = %s", a.name, c.name)
+	case 1: // binary operator on operands it does not take
+		op := []string{"+", "-", "*", "/", "%", "<", ">=", "and", "or", "=="}[k%10]
+		bad = fmt.Sprintf("r1 := %s %s %s\nprint r1", a.name, op, c.name)
+	case 2: // built-in with an argument of the wrong type
+		fn := []string{"upper %s", "len %s 1", "str2num %s", "abs %s", "join %s \"-\"", "split %s \" \"", "has %s \"a\"", "del %s \"a\"", "move %s 1", "sleep %s", "index %s \"a\"", "floor %s", "startswith %s \"a\"", "rand %s", "text %s", "color %s", "sprintf %s 1", "exit %s", "panic %s", "min %s 1"}[k%20]
+		bad = fmt.Sprintf("r2 := sprint (%s)\nprint r2", fmt.Sprintf(fn, a.name))
+		if k%3 == 0 {
+			bad = fmt.Sprintf(fn, a.name)
+		}
+	case 3: // user function: wrong argument type / count, wrong return type
+		switch k % 4 {
+		case 0:
+			bad = fmt.Sprintf("func f1:num p:num\n    return p + 1\nend\nprint (f1 %s)", a.name)
+		case 1:
+			bad = fmt.Sprintf("func f2:%s\n    return %s\nend\nr3 := f2\nprint r3", a.ty, c.name)
+		case 2:
+			bad = fmt.Sprintf("func f3 p:%s\n    print p\n    return %s\nend\nf3 %s", a.ty, c.name, a.name)
+		default:
+			bad = fmt.Sprintf("func f4:num p:num q:num\n    return p + q\nend\nprint (f4 %s) (f4 1 2 %s)", a.name, c.name)
+		}
+	case 4: // assignment targets that cannot be assigned to
+		t := []string{"ws[0][0] = \"x\"", "pm.name[0] = \"x\"", "pm[\"name\"][1] = \"x\"", "s[0] = \"x\"", "ws[1][-1] = \"x\"", "an[0:1] = [9]", "s[0:1] = \"x\"", "ws[0][0:1] = \"x\"",
+			"aan[0][0][0] = 1", "n[0] = 1", "b.k = true", "mn.a.b = 1", "mn[0] = 1", "an[\"a\"] = 1", "an.a = 1", "(len s) = 3", "x[0] = 1", "x.k = 1", "ax[0][0] = 1", "mx.a.b = 1",
+			"as[0][0] = \"x\"", "ms.a[0] = \"x\"", "ms[\"a\"][0] = \"y\"", "[1 2][0] = 3", "\"abc\"[0] = \"x\"", "ws[0] [0] = \"x\""}[k%26]
+		bad = t
+	case 5: // index, slice and field expressions that do not type
+		t := []string{"an[s]", "an[b]", "mn[n]", "mn[an]", "an.a", "s.a", "n[0]", "b[0]", "x[0]", "x.a", "mn[0:1]", "n[0:1]", "an[s:]", "an[:b]", "s[as]", "ax[0][0]", "mx.a.b", "aan[0][0][0]", "ws[0][0][0][0].k", "pm.name.first"}[k%20]
+		bad = fmt.Sprintf("r5 := %s\nprint r5", t)
+	case 6: // conditions and ranges
+		t := []string{"if %s\n    print 1\nend", "while %s\n    print 1\n    break\nend", "for i1 := range %s\n    print i1\nend", "for i2 := range 1 %s\n    print i2\nend", "for i3 := range 1 5 %s\n    print i3\nend", "if true\n    print 1\nelse if %s\n    print 2\nend"}[k%6]
+		v := a
+		if k%6 < 2 || k%6 == 5 {
+			if v.ty == "bool" {
+				v = c
+			}
+		} else if k%6 == 2 {
+			v = []nvVar{pick(2), pick(7)}[k%2] // range over a bool or an any
+		} else if v.ty == "num" {
+			v = c
+		}
+		bad = fmt.Sprintf(t, v.name)
+	case 7: // type assertions
+		t := []string{"n.(num)", "s.(string)", "an.([]num)", "x.(any)", "ax.([]num)", "mx.({}num)", "ax[0].(any)", "x.(num).(num)", "mn.a.(num)", "x.(nums)"}[k%10]
+		bad = fmt.Sprintf("r7 := %s\nprint r7", t)
+	case 8: // procedures and nothing used as values
+		t := []string{"r8 := cls", "r8 := (print 1)", "print (cls)", "r8 := [1 (cls)]", "r8 := {a:(cls)}", "an = an + [(clear)]", "x = (sleep 0)", "func p0\n    print 0\nend\nr8 := p0\nprint r8", "func p1\n    print 0\nend\nx = (p1)", "n = n + (p2)\nfunc p2\n    print 0\nend"}[k%10]
+		bad = t
+	case 9: // unary operators
+		bad = fmt.Sprintf("r9 := %s%s\nprint r9", []string{"-", "!"}[k%2], []string{"s", "b", "an", "mn", "x", "n", "as", "ax"}[(k/2)%8])
+		if k%4 == 3 {
+			bad = fmt.Sprintf("r9 := %s(%s)\nprint r9", []string{"-", "!"}[(k/4)%2], a.name)
+		}
+	case 10: // composite literals for a typed target
+		t := []string{"an = [1 \"a\"]", "an = as", "as = [s n]", "mn = {a:\"s\"}", "mn = ms", "ax = an", "mx = mn", "aan = [an as]", "aan = [[1] [\"a\"]]", "ax = [an][0]", "mx = [mn][0]", "ax = an[:1]", "ax = an + an", "an = ax", "mn = mx", "aan = [ax]", "ax = aan", "an = [x]", "mn = {a:x}", "as = ax"}[k%20]
+		bad = t
+	case 11: // declarations
+		t := []string{"n := 4", "n:string", "q1:num\nq1:string\nprint q1", "q2 := q2\nprint q2", "q3 := [q3]\nprint q3", "q4:nums\nprint q4", "q5:[]\nprint q5", "q6:{}\nprint q6", "q7 := {a:1 a:2}\nprint q7", "func n\n    print 1\nend", "func g1 p:num p:string\n    print p\nend\ng1 1 \"a\"", "on key\n    print 1\nend\non key\n    print 2\nend", "on key k:num\n    print k\nend", "on down x1:num\n    print x1\nend", "on nosuch\n    print 1\nend", "print q8\nq8 := 1", "if true\n    q9 := 1\n    print q9\nend\nprint q9", "for q10 := range 2\n    print q10\nend\nprint q10", "func g2\n    print q11\nend\ng2\nif true\n    q11 := 1\n    print q11\nend", "_ := 1"}[k%20]
+		bad = t
+	case 12: // control flow
+		t := []string{"break", "return", "return 1", "func h1:num\n    print 1\nend\nprint (h1)", "func h2:num\n    if true\n        return 1\n    end\nend\nprint (h2)", "func h3\n    return 1\nend\nh3", "on key\n    return 1\nend", "while true\n    break\n    print 1\nend", "func h4:num\n    return 1\n    print 2\nend\nprint (h4)", "if true\n    break\nend", "func h5:num\n    while true\n        return 1\n    end\nend\nprint (h5)", "func h6:num\n    for range 3\n        return 1\n    end\nend\nprint (h6)"}[k%12]
+		bad = t
+	default: // variadic and any parameters
+		t := []string{"func v1 p:num...\n    print p\nend\nv1 1 \"a\"", "func v2 p:num...\n    print p\nend\nv2 an", "func v3 p:any...\n    print p\nend\nv3 (cls)", "func v4:num p:num...\n    return p\nend\nprint (v4 1)", "func v5 p:[]any\n    print p\nend\nv5 an", "func v6 p:{}any\n    print p\nend\nv6 mn", "func v7 p:any\n    print p+1\nend\nv7 1", "func v8 p:num... q:num\n    print p q\nend\nv8 1 2", "print (typeof)", "print (typeof 1 2)", "print (len)", "func v9 p:[]num...\n    for e9 := range p\n        print e9[0]+1\n    end\nend\nv9 an ax"}[k%12]
+		bad = t
+	}
+	var b strings.Builder
+	for _, v := range vs {
+		b.WriteString(v.decl + "\n")
+	}
+	b.WriteString(bad + "\n")
+	for _, v := range vs {
+		b.WriteString(v.use + "\n")
+	}
+	return b.String()
 }
